@@ -113,7 +113,7 @@ struct Recorder {
 struct Cfg {
 	std::string id, kind, sel, matrix, kernel;
 	int shrink; std::size_t cachesize; double gamma, Cneg, Cpos, eps; unsigned long long maxiter;
-	std::size_t n, d; int warm;
+	std::size_t n, d; int warm; bool general;
 	std::vector<unsigned int> y; std::vector<RealVector> x; RealVector a0;
 };
 
@@ -129,15 +129,31 @@ void solveWith(ProblemType& problem, Cfg const& c) {
 	std::fprintf(OUT, "END %d %llu %a %a\n", (int)prop.type, prop.iterations, prop.value, prop.accuracy);
 }
 
+template<class SVMProblemType> void runProblem(SVMProblemType& svmProblem, Cfg const& c);
+
 template<class Matrix>
 void runMatrix(Matrix& matrix, Cfg const& c, Data<unsigned int> const& labels) {
 	std::size_t n = c.n;
 	std::fprintf(OUT, "K");
 	for (std::size_t i = 0; i < n; i++) for (std::size_t j = 0; j < n; j++) std::fprintf(OUT, " %a", (double)matrix.entry(i, j));
 	std::fprintf(OUT, "\n");
-	typedef CSVMProblem<Matrix> SVMProblemType;
 	RealVector reg(2); reg(0) = c.Cneg; reg(1) = c.Cpos;
-	SVMProblemType svmProblem(matrix, labels, reg);
+	if (c.general) {
+		// GeneralQuadraticProblem (the class behind weighted C-SVMs and ranking SVMs) with unit example weights: numerically the
+		// same problem as CSVMProblem, but a different class with its own flipCoordinates / permutation handling
+		typedef GeneralQuadraticProblem<Matrix> GProblemType;
+		Data<double> weights = createDataFromRange(std::vector<double>(n, 1.0));
+		GProblemType gProblem(matrix, labels, weights, reg);
+		runProblem(gProblem, c);
+	} else {
+		typedef CSVMProblem<Matrix> SVMProblemType;
+		SVMProblemType svmProblem(matrix, labels, reg);
+		runProblem(svmProblem, c);
+	}
+}
+
+template<class SVMProblemType>
+void runProblem(SVMProblemType& svmProblem, Cfg const& c) {
 	if (c.kind == "svm") {
 		typedef SvmShrinkingProblem<SVMProblemType> ProblemType;
 		ProblemType problem(svmProblem, c.shrink != 0);
@@ -186,6 +202,7 @@ int main(int argc, char** argv) {
 		std::istringstream ss(line);
 		std::string tag; Cfg c; std::string g, cn, cp, e;
 		ss >> tag >> c.id >> c.kind >> c.sel >> c.shrink >> c.matrix >> c.cachesize >> c.kernel >> g >> cn >> cp >> e >> c.maxiter >> c.n >> c.d >> c.warm;
+		c.general = c.matrix.size() == 3 && c.matrix[2] == 'g'; if (c.general) c.matrix = c.matrix.substr(0, 2);   // cfg / cdg / pdg: GeneralQuadraticProblem
 		c.gamma = std::strtod(g.c_str(), 0); c.Cneg = std::strtod(cn.c_str(), 0); c.Cpos = std::strtod(cp.c_str(), 0); c.eps = std::strtod(e.c_str(), 0);
 		c.y.resize(c.n); for (std::size_t i = 0; i < c.n; i++) ss >> c.y[i];
 		c.x.assign(c.n, RealVector(c.d));
